@@ -224,6 +224,18 @@ func (c *checkSchema) ensureShortcutKeysAreValid(node *ischema.ObjectNode) error
 }
 
 func actualRootType(s, root *ischema.ISchema) json.Type {
+	return actualRootTypeVisited(s, root, make(map[*ischema.ISchema]struct{}, 2))
+}
+
+func actualRootTypeVisited(s, root *ischema.ISchema, visited map[*ischema.ISchema]struct{}) json.Type {
+	// A type defined through itself (@a: "@a | @b") has no actual root type;
+	// without this guard the resolution below never ends.
+	if _, ok := visited[s]; ok {
+		return json.TypeMixed
+	}
+	visited[s] = struct{}{}
+	defer delete(visited, s) // only the current resolution path counts
+
 	t := s.RootNode().Type()
 	if t != json.TypeMixed {
 		return t
@@ -238,7 +250,7 @@ func actualRootType(s, root *ischema.ISchema) json.Type {
 			if err != nil {
 				return json.TypeMixed
 			}
-			tt = actualRootType(ss, root)
+			tt = actualRootTypeVisited(ss, root, visited)
 			types[tt] = struct{}{}
 		}
 		if len(types) == 1 { // all USER TYPES (example: @aaa | @bbb) have the same type (example: string)
